@@ -296,7 +296,7 @@ def main(report, tier, seed, workers, calibrate=False):
         from fractions import Fraction as F
         envs = [{f'g{i}{j}': F(v) for (i, j), v in gr.DESIGNED_GAMMA[w].items()} for w in (0, 1)]
         rungs = [dict(name='full', envs=[None], timeout=to),
-                 dict(name='slices:metric-value-fixed', envs=envs, timeout=2 * to)]
+                 dict(name='slices:metric-value-fixed', envs=envs, timeout=5 * to)]
         # two samplers: fluid at rest (exact rational point) and a moving fluid with W = 5/4
         samplers = blk['samplers']
 
